@@ -112,6 +112,28 @@ def repo() -> Path:
     return REPO
 
 
+class _FormatAndDrop(__import__('logging').Handler):
+    """The services run with logging at INFO: every log call below that threshold is a no-op in a quiet harness, so code
+    inside log statements (record construction with `extra=`, argument formatting) would never execute.  This handler
+    builds and formats every record like a real handler would, then drops it."""
+
+    def emit(self, record):
+        try:
+            self.format(record)
+        except Exception:  # noqa: BLE001  a bad format string is not one of the properties; Logger-side errors still propagate
+            pass
+
+
+def _enable_logging():
+    import logging
+
+    root = logging.getLogger()
+    if not any(isinstance(h, _FormatAndDrop) for h in root.handlers):
+        root.addHandler(_FormatAndDrop())
+    root.setLevel(logging.INFO)
+    logging.raiseExceptions = False
+
+
 def install(extra_env: dict | None = None, services: bool = True) -> Path:
     """Idempotent.  Returns the repo root used."""
     global _installed, _tmpdir
@@ -125,6 +147,7 @@ def install(extra_env: dict | None = None, services: bool = True) -> Path:
     sys.path.append(str(VERIF / '.deps'))
     sys.dont_write_bytecode = True
 
+    _enable_logging()
     _tmpdir = tempfile.mkdtemp(prefix='vf-boot-', dir='/dev/shm' if os.path.isdir('/dev/shm') else None)
     import atexit
     import shutil
